@@ -288,6 +288,8 @@ def parse_file(path):
     bodies = []
     cur = None
     blk = None
+    consts = []
+    curconst = None
     last = None  # last Stmt/Term for '// +' continuation lines
     with open(path, 'r', errors='replace') as f:
         lines = f.read().split('\n')
@@ -336,10 +338,19 @@ def parse_file(path):
                 cur.promoted = int(pm.group(1))
                 skipping = False
             elif line.startswith('const ') or line.startswith('static '):
-                # promoted constants / consts / statics: skip until closing brace at col 0
+                # consts / statics: not bodies; named integer consts are kept (name, type, body text) so that
+                # `const _` operands can be resolved (resolve_const_operands) and their values held to a reference
                 skipping = True
+                cm = re.match(r'^const ((?:[\w]+::)*)([A-Z][A-Z0-9_]*): ([^=]+?) = \{$', line)
+                curconst = None
+                if cm:
+                    curconst = {'name': cm.group(2), 'path': cm.group(1), 'ty': cm.group(3), 'lines': []}
+                    consts.append(curconst)
             elif skipping and line == '}':
                 skipping = False
+                curconst = None
+            elif skipping and curconst is not None:
+                curconst['lines'].append(line)
             continue
         if line == '}':
             bodies.append(cur)
@@ -422,7 +433,110 @@ def parse_file(path):
         for blk in b.blocks.values():
             if blk.term is None:
                 raise ParseError('block without terminator: %s bb%d' % (b.raw_name, blk.id))
-    return bodies
+    out = BodyList(bodies)
+    out.consts = fold_consts(consts)
+    return out
+
+
+class BodyList(list):
+    """list of bodies + `consts`: {NAME: {'ty':, 'value': folded integer or None, 'digest': sha1 of the body text}}"""
+    consts = None
+
+
+def fold_consts(items):
+    import hashlib
+    out = {}
+    dup = set()
+    for it in items:
+        stmts = []
+        for ln in it['lines']:
+            t = ln.split('//')[0].strip().rstrip(';')
+            if t and not t.startswith(('let ', 'bb', '}', 'StorageLive', 'StorageDead', 'assert(', 'return', 'scope', 'debug ', 'goto')):
+                stmts.append(t)
+        env = {}
+
+        def ev(o):
+            o = o.strip()
+            o = re.sub(r'^(move|copy) ', '', o)
+            m = re.fullmatch(r'const (-?\d+)_[iu]\w+', o)
+            if m:
+                return int(m.group(1))
+            m = re.fullmatch(r'\(?(_\d+)(?:\.0: [^)]*\))?', o)
+            if m and m.group(1) in env:
+                return env[m.group(1)]
+            raise ValueError(o)
+        val = None
+        try:
+            for t in stmts:
+                m = re.match(r'^(_\d+) = (.*)$', t)
+                if not m:
+                    raise ValueError(t)
+                lhs, rhs = m.group(1), m.group(2)
+                b = re.match(r'^(Checked)?(Add|Sub|Mul|Div|Shl|Shr)\((.*), (.*)\)$', rhs)
+                if b:
+                    x, y = ev(b.group(3)), ev(b.group(4))
+                    env[lhs] = {'Add': x + y, 'Sub': x - y, 'Mul': x * y, 'Div': x // y if y else 0, 'Shl': x << y, 'Shr': x >> y}[b.group(2)]
+                else:
+                    env[lhs] = ev(rhs)
+            val = env.get('_0')
+        except (ValueError, KeyError):
+            val = None
+        body = '\n'.join(stmts)
+        ent = {'ty': it['ty'].strip(), 'value': val, 'digest': hashlib.sha1(body.encode()).hexdigest()[:12], 'path': it['path']}
+        if it['name'] in out and out[it['name']] != ent:
+            dup.add(it['name'])
+        out[it['name']] = ent
+    for d in dup:            # same simple name in two modules with different values: not resolvable by name
+        out[d] = {'ty': '?', 'value': None, 'digest': 'ambiguous', 'path': ''}
+    return out
+
+
+_IDENT = re.compile(r'\b[A-Z][A-Z0-9_]{2,}\b')
+
+
+def resolve_const_operands(bodies, repo):
+    """rustc 1.72 prints an unevaluated named constant operand as `const _` and, for plain operands, without the
+    `// + literal:` comment that names it.  The statement's span covers the source expression: the named constants of the
+    crate that occur in that text, in order, are recorded as synthetic literal comments (same form as rustc's) so that
+    all consumers of `extra` see the name."""
+    import os
+    consts = getattr(bodies, 'consts', None) or {}
+    if not consts:
+        return 0
+    cache = {}
+
+    def text_of(span):
+        if not span:
+            return ''
+        f, l1, c1, l2, c2 = span.file, span.line, span.col, span.eline, span.ecol
+        if os.path.isabs(f):
+            return ''
+        if f not in cache:
+            try:
+                cache[f] = open(os.path.join(repo, f), errors='replace').read().split('\n')
+            except OSError:
+                cache[f] = None
+        src = cache[f]
+        if src is None or l1 < 1 or l2 > len(src):
+            return ''
+        if l1 == l2:
+            return src[l1 - 1][c1 - 1:c2 - 1]
+        return '\n'.join([src[l1 - 1][c1 - 1:]] + src[l1:l2 - 1] + [src[l2 - 1][:c2 - 1]])
+    n = 0
+    for b in bodies:
+        for blk in b.blocks.values():
+            for it in list(blk.stmts) + [blk.term]:
+                if it is None or not it.text or 'const _' not in it.text:
+                    continue
+                if any('Unevaluated(' in e for e in it.extra):
+                    continue
+                names = [x for x in _IDENT.findall(text_of(it.span)) if x in consts]
+                if not names:
+                    continue
+                for nm in names:
+                    it.extra.append('// + literal: Const { ty: %s, val: Unevaluated(%s, [], None) } (resolved from the source span)' % (consts[nm]['ty'], nm))
+                n += 1
+    return n
 
 
 def _find_assign(code):
